@@ -2687,7 +2687,8 @@ again:
 			echs_instant_t x = echs_instant_rescale(
 				strm->cch[i], SCALE_GREGORIAN);
 
-			if (LIKELY(!echs_instant_all_day_p(x))) {
+			if (LIKELY(!echs_instant_all_day_p(x) &&
+				   !echs_nul_instant_p(x))) {
 				strm->cch[i] = echs_instant_utc(x, strm->zon);
 			}
 		}
